@@ -186,6 +186,20 @@ class Exec:
             self.prev_p[key] = float(a.p_value)
             self.prev_proved[key] = bool(a.proved)
         self.prev_idx = idx
+        if rnd.get("estimate") is not None:
+            # between rounds the auditors ask how many more cards they may need, under error rates of their choosing:
+            # planning must not touch the evidence (estimates themselves are C16's business; failures to estimate are ignored)
+            import copy as _copy
+
+            aud = _copy.copy(self.audit)
+            aud.error_rate_1, aud.error_rate_2 = 0.001, rnd["estimate"]
+            for cid, con in live.items():
+                try:
+                    with contextlib.redirect_stdout(io.StringIO()):
+                        con.find_sample_size(aud, mvr_sample=ms, cvr_sample=cs)
+                except Exception:  # noqa
+                    out.skip("planning-estimate-unavailable")
+            out.cls("planning-estimate-between-rounds")
 
     def nontrivial(self):
         return self.ok and self.strict >= 2 and self.diff_styles and self.rounds >= 2
@@ -248,13 +262,14 @@ def machine(shard):
                 core.current_state().record(self.case, self.out, known)
 
         @rule(variant=st.sampled_from(variants), incs=st.lists(st.integers(0, 4), min_size=3, max_size=3), big=st.booleans(),
-              sort_first=st.sampled_from([False, False, False, False, True]))
-        def audit_round(self, variant, incs, big, sort_first):
+              sort_first=st.sampled_from([False, False, False, False, True]),
+              estimate=st.sampled_from([None, None, None, 0.0, 0.01, 0.2]))
+        def audit_round(self, variant, incs, big, sort_first, estimate):
             if self.ex is None or not self.ex.ok:
                 return  # audit never started (non-positive margin ...) or already failed: nothing to escalate
             cids = sorted(self.ex.contests)
             inc = {cid: incs[i % 3] * (3 if big else 1) for i, cid in enumerate(cids)}
-            rnd = {"variant": variant, "inc": inc, "sort_first": sort_first}
+            rnd = {"variant": variant, "inc": inc, "sort_first": sort_first, "estimate": estimate}
             self.case["rounds"].append(rnd)
             self._guard(lambda: self.ex.step(rnd))
             self._flush()
